@@ -1,36 +1,268 @@
-"""C01-C05 - contracts for aw_datastore/storages/memory.py (the in-memory back end): per-bucket Python lists."""
+"""C01-C05 - contracts for aw_datastore/storages/memory.py (the in-memory back end): one Python list per bucket.
+
+The view is the dict `self.db` itself (bucket id -> list of stored Event objects) and `self._metadata`.  Ownership (C01) is
+stated per operation: what goes into a list is an object the method allocated itself (fresh, with a fresh data dict), what is
+handed out is fresh as well, so no caller ever holds a reference into the store (relative to A-COPY: copy.deepcopy returns a
+structure-preserving deep-fresh copy)."""
 import copy
+import json
+from datetime import timedelta
 from pyvc.specrt import *  # noqa: F401,F403
 from pyvc.api import contract, spec, classdef
 
 M_ = "aw_datastore.storages.memory.MemoryStorage"
 classdef(M_, fields={"db": "Dict[str,List[Event]]", "_metadata": "Dict[str,Dict[str,JV]]"})
 
-contract(
-    M_ + ".get_eventcount",
-    params={"self": "MemoryStorage", "bucket": "str", "starttime": "Optional[datetime]", "endtime": "Optional[datetime]"},
-    returns="int", requires=["bucket in self.db"],
-    ensures=["result >= 0 and result <= len(self.db[bucket])"],
-    modifies=["alloc"], writes_fresh=["List.len", "List.items"], raises=[],
-)
-contract(
-    M_ + ".insert_one",
-    params={"self": "MemoryStorage", "bucket": "str", "event": "Event"},
-    returns="Event", requires=["bucket in self.db", "event.id is None"],
-    ensures=["fresh(result)"],
-    modifies=["self.db[]", "alloc"], writes_fresh=["*"], raises=[],
-)
+
+@spec
+def mem_inv(self):
+    """Closed heap, spelled out for the containers: the lists in self.db and the events in them are allocated objects,
+    and so are the events' data dicts (a property of the language; object *fields* get it from the encoder)."""
+    return (self.db is not self._metadata        # (two dict objects; the encoder keeps all references in one sort)
+            and all(allocated(self.db[b]) and all(allocated(self.db[b][j]) and allocated(self.db[b][j].data) for j in range(len(self.db[b])))
+                    for b in self.db)
+            and all(allocated(self._metadata[b]) for b in self._metadata))
+
+
+@spec
+def same_event(a, b):
+    """a is a copy of b by value"""
+    return a.id == b.id and a.timestamp == b.timestamp and a.duration == b.duration and a.data == b.data
+
+
+@spec
+def others_untouched(self, bucket):
+    """every other bucket's list is the same list with the same events"""
+    return all(b == bucket or (b in old(self.db) and self.db[b] is old(self.db[b]) and len(self.db[b]) == old(len(self.db[b]))
+                               and all(self.db[b][j] is old(self.db[b][j]) for j in range(len(self.db[b])))) for b in self.db)
+
+
+STORED_VALUES_SAME = ("all(self.db[{B}][j].timestamp == old(self.db[{B}][j].timestamp) and self.db[{B}][j].duration == old(self.db[{B}][j].duration)"
+                      "    and self.db[{B}][j].data == old(self.db[{B}][j].data) and self.db[{B}][j].id == old(self.db[{B}][j].id)"
+                      "    for j in range(len(self.db[{B}])))")
+
+# -- delete ----------------------------------------------------------------------------------------------------------------------
 contract(
     M_ + ".delete",
     params={"self": "MemoryStorage", "bucket_id": "str", "event_id": "int"},
     returns="bool", requires=["bucket_id in self.db"],
-    ensures=[],
-    modifies=["self.db[]", "alloc"], writes_fresh=["*"], raises=[],
+    ghost_vars={"at": ("int", "-1")},
+    ghost_code=[dict(after="self.db[bucket_id].pop(idx)", code="at = idx")],
+    ensures=[
+        "result == any(old(self.db[bucket_id][j].id) == event_id for j in range(old(len(self.db[bucket_id]))))",
+        "self.db[bucket_id] is old(self.db[bucket_id])",
+        # nothing found: the list is as it was
+        "result or (len(self.db[bucket_id]) == old(len(self.db[bucket_id]))"
+        "           and all(self.db[bucket_id][j] is old(self.db[bucket_id][j]) for j in range(len(self.db[bucket_id]))))",
+        # found: exactly the last event carrying that id is removed, the others keep their order
+        "not result or (0 <= at and at < old(len(self.db[bucket_id])) and old(self.db[bucket_id][at].id) == event_id"
+        "               and len(self.db[bucket_id]) == old(len(self.db[bucket_id])) - 1"
+        "               and all(old(self.db[bucket_id][j].id) != event_id for j in range(at + 1, old(len(self.db[bucket_id]))))"
+        "               and all(self.db[bucket_id][j] is old(self.db[bucket_id][j]) for j in range(at))"
+        "               and all(self.db[bucket_id][j] is old(self.db[bucket_id][j + 1]) for j in range(at, len(self.db[bucket_id]))))",
+    ],
+    modifies=["self.db[bucket_id][]", "alloc"], writes_fresh=["List.len", "List.items"], raises=[],
+    loops={0: dict(index="k", invariant=[
+        "len(self.db[bucket_id]) == old(len(self.db[bucket_id])) and self.db[bucket_id] is old(self.db[bucket_id])",
+        "all(self.db[bucket_id][j] is old(self.db[bucket_id][j]) for j in range(len(self.db[bucket_id])))",
+        "all(old(self.db[bucket_id][j].id) != event_id for j in range(old(len(self.db[bucket_id])) - k, old(len(self.db[bucket_id]))))",
+    ])},
 )
+
+# -- lookup by id ------------------------------------------------------------------------------------------------------------------
+contract(
+    M_ + "._get_event",
+    params={"self": "MemoryStorage", "bucket_id": "str", "event_id": "int"},
+    returns="Optional[Event]", requires=["bucket_id in self.db", "mem_inv(self)"],
+    locals={"events": "List[Event]"},
+    ghost_returns={"at": "int"},
+    ghost_vars={"at": ("int", "-1")},
+    # (witness: the list position of the first hit of the reversed scan)
+    ghost_code=[dict(after="events = [", code="at = len(self.db[bucket_id]) - 1 - filter_sel(events)[0]")],
+    ensures=[
+        "(result is None) == all(self.db[bucket_id][j].id != event_id for j in range(len(self.db[bucket_id])))",
+        # the stored event itself (internal helper): the last one carrying that id
+        "result is None or (0 <= at and at < len(self.db[bucket_id]) and result is self.db[bucket_id][at] and result.id == event_id"
+        "                   and all(self.db[bucket_id][j2].id != event_id for j2 in range(at + 1, len(self.db[bucket_id]))))",
+    ],
+    modifies=["alloc"], writes_fresh=["List.len", "List.items"], raises=[],
+)
+contract(
+    M_ + ".get_event",
+    params={"self": "MemoryStorage", "bucket_id": "str", "event_id": "int"},
+    returns="Optional[Event]", requires=["bucket_id in self.db", "mem_inv(self)"],
+    ensures=[
+        "(result is None) == all(self.db[bucket_id][j].id != event_id for j in range(len(self.db[bucket_id])))",
+        # a fresh copy (fresh data dict) of the last stored event carrying that id: nothing of the store is handed out
+        "result is None or (fresh(result) and fresh(result.data) and 0 <= g_at and g_at < len(self.db[bucket_id])"
+        "                   and same_event(result, self.db[bucket_id][g_at]) and result.id == event_id"
+        "                   and all(self.db[bucket_id][j2].id != event_id for j2 in range(g_at + 1, len(self.db[bucket_id]))))",
+    ],
+    modifies=["alloc"], writes_fresh=["*"], raises=[],
+)
+
+# -- replace: every stored event carrying the id is replaced by a fresh deep copy of the caller's event ---------------------------------
+# (E0 = the caller's event; the function rebinds its own `event` to the copy it stores)
+REPLACED = ("all((old(self.db[bucket_id][j].id) == event_id and fresh(self.db[bucket_id][j]) and fresh(self.db[bucket_id][j].data)"
+            "     and self.db[bucket_id][j] is not E0 and self.db[bucket_id][j].data is not E0.data"
+            "     and self.db[bucket_id][j].id == event_id and self.db[bucket_id][j].timestamp == E0.timestamp"
+            "     and self.db[bucket_id][j].duration == E0.duration and self.db[bucket_id][j].data == E0.data)"
+            "    or (old(self.db[bucket_id][j].id) != event_id and self.db[bucket_id][j] is old(self.db[bucket_id][j]))"
+            "    for j in range({LO}, len(self.db[bucket_id])))")
+E0_SAME = ("E0 is old(event) and E0.timestamp == old(event.timestamp) and E0.duration == old(event.duration) and E0.data == old(event.data)"
+           " and E0.id == old(event.id) and E0.data is old(event.data)")
+
+contract(
+    M_ + ".replace",
+    params={"self": "MemoryStorage", "bucket_id": "str", "event_id": "int", "event": "Event"},
+    requires=["bucket_id in self.db", "mem_inv(self)", "allocated(event) and allocated(event.data)"],
+    ghost_vars={"E0": ("Event", "event")}, ghost_returns={"E0": "Event"},
+    ensures=[
+        "self.db[bucket_id] is old(self.db[bucket_id]) and len(self.db[bucket_id]) == old(len(self.db[bucket_id]))",
+        REPLACED.format(LO="0"), E0_SAME, "mem_inv(self)",
+    ],
+    modifies=["self.db[bucket_id][]", "alloc"], writes_fresh=["*"], raises=[],
+    loops={0: dict(index="k", invariant=[
+        "self.db[bucket_id] is old(self.db[bucket_id]) and len(self.db[bucket_id]) == old(len(self.db[bucket_id]))",
+        E0_SAME, "mem_inv(self)", "allocated(event) and allocated(event.data)",
+        # the function's own `event` is the caller's event or a copy of it
+        "event is E0 or (fresh(event) and fresh(event.data) and event.timestamp == E0.timestamp and event.duration == E0.duration"
+        "                and event.data == E0.data)",
+        # positions not visited yet are untouched, positions visited are settled
+        "all(self.db[bucket_id][j] is old(self.db[bucket_id][j]) for j in range(old(len(self.db[bucket_id])) - k))",
+        REPLACED.format(LO="old(len(self.db[bucket_id])) - k"),
+    ])},
+)
+
+# -- insert_one -----------------------------------------------------------------------------------------------------------------------
+contract(
+    M_ + ".insert_one:new",
+    params={"self": "MemoryStorage", "bucket": "str", "event": "Event"},
+    returns="Event",
+    requires=["bucket in self.db", "mem_inv(self)", "allocated(event) and allocated(event.data)", "event.id is None",
+              "all(self.db[bucket][j].id is not None and self.db[bucket][j].id >= 0 for j in range(len(self.db[bucket])))"],
+    ghost_vars={"E0": ("Event", "event")},
+    ensures=[
+        "self.db[bucket] is old(self.db[bucket]) and len(self.db[bucket]) == old(len(self.db[bucket])) + 1",
+        "all(self.db[bucket][j] is old(self.db[bucket][j]) for j in range(old(len(self.db[bucket]))))",
+        # the stored event: an object of the store's own (fresh, fresh data dict), equal in value to the caller's, under a new id
+        "fresh(self.db[bucket][len(self.db[bucket]) - 1]) and fresh(self.db[bucket][len(self.db[bucket]) - 1].data)",
+        "self.db[bucket][len(self.db[bucket]) - 1].timestamp == E0.timestamp and self.db[bucket][len(self.db[bucket]) - 1].duration == E0.duration"
+        " and self.db[bucket][len(self.db[bucket]) - 1].data == E0.data",
+        "self.db[bucket][len(self.db[bucket]) - 1].id is not None"
+        " and all(old(self.db[bucket][j].id) != self.db[bucket][len(self.db[bucket]) - 1].id for j in range(old(len(self.db[bucket]))))",
+        # what is handed back is a third object: neither the caller's event nor the stored one, equal in value to the stored one
+        "fresh(result) and fresh(result.data) and result is not self.db[bucket][len(self.db[bucket]) - 1]"
+        " and result.data is not self.db[bucket][len(self.db[bucket]) - 1].data and same_event(result, self.db[bucket][len(self.db[bucket]) - 1])",
+        # the caller's event is not touched (not even its id)
+        "E0 is old(event) and E0.id is None and E0.timestamp == old(event.timestamp) and E0.duration == old(event.duration) and E0.data == old(event.data)",
+        "mem_inv(self)",
+    ],
+    modifies=["self.db[bucket][]", "alloc"], writes_fresh=["*"], raises=[],
+)
+
+# -- reads ---------------------------------------------------------------------------------------------------------------------------
+@spec
+def in_win(e, starttime, endtime):
+    return (starttime is None or starttime <= e.timestamp + e.duration) and (endtime is None or e.timestamp <= endtime)
+
+
+contract(
+    M_ + ".get_eventcount",
+    params={"self": "MemoryStorage", "bucket": "str", "starttime": "Optional[datetime]", "endtime": "Optional[datetime]"},
+    returns="int", requires=["bucket in self.db", "mem_inv(self)"],
+    ensures=[
+        # the number of stored events that intersect the window: as many as the (ghost) filter selected
+        "result == len(last_filter())",
+        "all(0 <= filter_sel(last_filter())[j] and filter_sel(last_filter())[j] < len(self.db[bucket])"
+        "    and in_win(self.db[bucket][filter_sel(last_filter())[j]], starttime, endtime) for j in range(result))",
+        "all(filter_sel(last_filter())[j] < filter_sel(last_filter())[j2] for j in range(result) for j2 in range(j + 1, result))",
+        "all(not in_win(self.db[bucket][i], starttime, endtime) or (0 <= filter_pos(last_filter())[i] and filter_pos(last_filter())[i] < result"
+        "    and filter_sel(last_filter())[filter_pos(last_filter())[i]] == i) for i in range(len(self.db[bucket])))",
+    ],
+    modifies=["alloc"], writes_fresh=["List.len", "List.items"], raises=[],
+)
+
 contract(
     M_ + ".get_events",
     params={"self": "MemoryStorage", "bucket": "str", "limit": "int", "starttime": "Optional[datetime]", "endtime": "Optional[datetime]"},
-    returns="List[Event]", requires=["bucket in self.db"],
-    ensures=["fresh(result)"],
+    returns="List[Event]", requires=["bucket in self.db", "mem_inv(self)"],
+    ensures=[
+        "limit != 0 or len(result) == 0",
+        "limit <= 0 or len(result) <= limit",
+        # what is handed out is the caller's: fresh objects with fresh data dicts
+        "fresh(result) and all(fresh(result[j]) and fresh(result[j].data) for j in range(len(result)))",
+        # each of them is the copy of a stored event that intersects the window
+        "all(any(same_event(result[j], self.db[bucket][i]) and in_win(self.db[bucket][i], starttime, endtime) for i in range(len(self.db[bucket])))"
+        "    for j in range(len(result)))",
+        # newest first
+        "all(result[j].timestamp >= result[j + 1].timestamp for j in range(len(result) - 1))",
+        # (that nothing intersecting the window is missing is NOT proved here: the chain sort / reverse / filter / filter / slice /
+        #  copy defeated both solvers; the bounded windowed-read harness covers it)
+        # the store itself is not touched by a read
+        "len(self.db[bucket]) == old(len(self.db[bucket])) and all(self.db[bucket][i] is old(self.db[bucket][i]) for i in range(len(self.db[bucket])))",
+    ],
     modifies=["alloc"], writes_fresh=["*"], raises=[],
+)
+
+contract(
+    M_ + ".replace_last",
+    params={"self": "MemoryStorage", "bucket_id": "str", "event": "Event"},
+    requires=["bucket_id in self.db", "mem_inv(self)", "allocated(event) and allocated(event.data)", "len(self.db[bucket_id]) > 0",
+              "all(self.db[bucket_id][j].id is not None for j in range(len(self.db[bucket_id])))"],
+    ghost_vars={"E0": ("Event", "event"), "lastid": ("int", "-1"), "li": ("int", "-1")}, ghost_returns={"E0": "Event", "lastid": "int", "li": "int"},
+    # (witness li: the list position of the entry the sort puts last)
+    ghost_code=[dict(after="last = sorted(", code="lastid = last.id\nli = sort_perm(self.db[bucket_id])[len(self.db[bucket_id]) - 1]")],
+    ensures=[
+        "self.db[bucket_id] is old(self.db[bucket_id]) and len(self.db[bucket_id]) == old(len(self.db[bucket_id]))",
+        # the id rewritten is that of an event with the greatest timestamp
+        "0 <= li and li < len(self.db[bucket_id]) and old(self.db[bucket_id][li].id) == lastid"
+        " and all(old(self.db[bucket_id][j].timestamp) <= old(self.db[bucket_id][li].timestamp) for j in range(len(self.db[bucket_id])))",
+        # every stored event carrying that id becomes a fresh copy of the caller's event (keeping the id), nothing else changes
+        REPLACED.replace("event_id", "lastid").format(LO="0"), E0_SAME, "mem_inv(self)",
+    ],
+    modifies=["self.db[bucket_id][]", "alloc"], writes_fresh=["*"], raises=[],
+)
+
+# -- buckets ---------------------------------------------------------------------------------------------------------------------------
+contract(
+    M_ + ".create_bucket",
+    params={"self": "MemoryStorage", "bucket_id": "str", "type_id": "str", "client": "str", "hostname": "str", "created": "str",
+            "name": "Optional[str]", "data": "Optional[Dict[str,JV]]"},
+    requires=["mem_inv(self)"],
+    ensures=[
+        "bucket_id in self.db and len(self.db[bucket_id]) == 0 and fresh(self.db[bucket_id])",
+        "bucket_id in self._metadata and fresh(self._metadata[bucket_id])",
+        "self._metadata[bucket_id]['id'] == bucket_id and self._metadata[bucket_id]['type'] == type_id and self._metadata[bucket_id]['client'] == client"
+        " and self._metadata[bucket_id]['hostname'] == hostname and self._metadata[bucket_id]['created'] == created",
+        "self._metadata[bucket_id]['name'] == (name if name is not None and len(name) > 0 else bucket_id)",
+        # every other bucket keeps its list and its metadata
+        "all(b == bucket_id or (b in self.db and self.db[b] is old(self.db[b])) for b in old(self.db))",
+        "all(b == bucket_id or b in old(self.db) for b in self.db)",
+        "all(b == bucket_id or (b in self._metadata and self._metadata[b] is old(self._metadata[b])) for b in old(self._metadata))",
+        "mem_inv(self)",
+    ],
+    modifies=["self.db[]", "self._metadata[]", "alloc"], writes_fresh=["List.len", "List.items", "Dict.map:JV"], raises=[],
+)
+contract(
+    M_ + ".delete_bucket",
+    params={"self": "MemoryStorage", "bucket_id": "str"},
+    requires=["mem_inv(self)"],
+    ensures=[
+        "old(bucket_id in self._metadata) and bucket_id not in self.db and bucket_id not in self._metadata",
+        "all(b == bucket_id or (b in self.db and self.db[b] is old(self.db[b])) for b in old(self.db))",
+        "all(b in old(self.db) for b in self.db)",
+        "all(b == bucket_id or (b in self._metadata and self._metadata[b] is old(self._metadata[b])) for b in old(self._metadata))",
+    ],
+    exc_ensures={"ValueError": ["not old(bucket_id in self._metadata)", "all(b in self._metadata and self._metadata[b] is old(self._metadata[b]) for b in old(self._metadata))",
+                                "all(b == bucket_id or (b in self.db and self.db[b] is old(self.db[b])) for b in old(self.db))"]},
+    modifies=["self.db[]", "self._metadata[]"], raises=["ValueError"],
+)
+contract(
+    M_ + ".get_metadata",
+    params={"self": "MemoryStorage", "bucket_id": "str"}, returns="Dict[str,JV]",
+    requires=["mem_inv(self)"],
+    ensures=["old(bucket_id in self._metadata)", "fresh(result) and result is not self._metadata[bucket_id] and result == self._metadata[bucket_id]"],
+    exc_ensures={"ValueError": ["not old(bucket_id in self._metadata)"]},
+    modifies=["alloc"], writes_fresh=["*"], raises=["ValueError"],
 )
